@@ -82,8 +82,8 @@ CLAIMS = {
          "literal, register and unprivileged forms, ARM A1/A2 and Thumb T1-T4) proved equal, leaf by leaf over the whole machine state and "
          "the abstract memory (address, size, access kind, privilege, data of every access; write-back; loads to PC with interworking; "
          "frame), to the ARM ARM decode+operation pseudocode for all instruction words of the class and all operand values with "
-         "wrap-around modulo 2^32; plus the abort clause (no register loaded or written back; LDRD destinations UNKNOWN). Exclusives, "
-         "TBB/TBH, PLD and the Thumb LDRD/unprivileged encodings have no row yet (safety obligations only).", "DESIGN.md 10 C02, 14"),
+         "wrap-around modulo 2^32; plus the abort clause (no register loaded or written back; LDRD destinations UNKNOWN). Exclusives "
+         "and PLD have decode-only rows (operation: safety obligations only).", "DESIGN.md 10 C02, 14"),
  'C03': ("LDM/STM in four addressing modes, PUSH/POP, LDM/STM (user registers), LDM (exception return): the execute() of each of the 15 "
          "abstract classes verified with its register loop cut (head: start address and ascending order; inductive step for an arbitrary "
          "register index, address, memory and register file; tail: PC slot, write-back, UNKNOWN cases, exception return), so for all 2^16 "
@@ -95,10 +95,11 @@ CLAIMS = {
          "selected class must own the word in the encoding table (decode.class) or the word is UNPREDICTABLE; every word that ends in the "
          "Undefined Instruction exception without an opcode object is no valid encoding of any table row (decode.total); operand "
          "extraction through the functional equality (post / decode.fields) and UNDEFINED rows never execute (post.unpred); decode "
-         "reads nothing but the word, ITSTATE and C (frame.own + the spec's own dependence). The table holds 510 of the 602 concrete "
-         "classes (data-processing, branches, load/store single and multiple, multiply/SIMD/saturating/bit-field, MRS/MSR/CPS/SETEND/"
-         "exception return/hints); the 92 classes without a row (exclusives, coprocessor, PLD, barriers, SVC/SMC/BKPT/UDF, TBB, "
-         "Thumb LDRD/unprivileged) are covered by the spec-free obligations only.", "DESIGN.md 14.8"),
+         "reads nothing but the word, ITSTATE and C (frame.own + the spec's own dependence). The table holds 565 of the 602 concrete "
+         "classes (data-processing, branches, load/store single, dual, multiple, unprivileged, multiply/SIMD/saturating/bit-field, "
+         "MRS/MSR/CPS/SETEND/exception return/hints, TBB/TBH functionally; SVC/SMC/UDF/BKPT/IT/barriers/PLD/exclusives as decode-only "
+         "rows); the 37 classes without a row (coprocessor CDP/MCR/MRC/MCRR/MRRC/LDC/STC, Thumb PLD, ENTERX/LEAVEX) "
+         "are covered by the spec-free obligations only.", "DESIGN.md 14.8"),
  'C07': ("As C06 for Thumb: 58 16-bit cubes (bits 15:10) and 192 32-bit cubes (bits 31:21), inside and outside IT blocks (ITSTATE "
          "symbolic); 32-bit detection by hw1<15:11> is part of the fetch contract proved in C13.", "DESIGN.md 14.8"),
  'C09': ("All multiply/divide (MUL, MLA, MLS, long, halfword, dual, most-significant-word, SDIV/UDIV), saturating (QADD.., SSAT/USAT, "
